@@ -8,5 +8,6 @@ func generators() []generator {
 		{"ChanOps", genChanOps},
 		{"Dispatch", genDispatch},
 		{"Lifecycle", genLifecycle},
+		{"Signals", genSignals},
 	}
 }
